@@ -50,6 +50,7 @@ fn bundle_reactor_types_in_order()
     let empty = RevokeToken::new_from(SystemCommand(ent(200)), ());
     assert!(empty.reactors.len() == 0, "C15: empty bundle => empty token");
     std::mem::forget(tys);
+    kani::cover!(true, "end of harness reached");
 }
 
 /// EntityTriggerBundle::new_bundle names the given entity in every member (C16: add() registers for THAT entity).
@@ -68,4 +69,5 @@ fn entity_bundle_names_entity()
     assert!(tys[2] == ReactorType::EntityRemoval(e, TypeId::of::<CompB>()));
     assert!(b.0.entity() == e && b.1.entity() == e && b.2.entity() == e);
     std::mem::forget(tys);
+    kani::cover!(true, "end of harness reached");
 }
